@@ -624,3 +624,561 @@ Lemma rs_tie_A_no_trunc_ok :
   | _, _, _ => False
   end.
 Proof. vm_compute. split; reflexivity. Qed.
+
+(* ------------------------------------------------------------------ Ruge-Stuben: no uninitialised read
+   (after /repo commit 8cfa879 connect() writes every S.val cell) *)
+Lemma rs_connect_junk_independent {S : Scalar} (eps eps_strong : S) (A : crs S) (j1 j2 : flags) :
+  rs_connect eps eps_strong A j1 = rs_connect eps eps_strong A j2.
+Proof. reflexivity. Qed.
+
+Lemma rs_transfer_junk_independent {S : Scalar} (eps_strong eps_trunc : S) do_trunc (A : crs S) (j1 j2 : flags) :
+  rs_transfer eps_strong eps_trunc do_trunc A j1 = rs_transfer eps_strong eps_trunc do_trunc A j2.
+Proof. reflexivity. Qed.
+
+(* ------------------------------------------------------------------ smoothed aggregation formula *)
+From Amgcl Require Import KernelsProofs MatOpsProofs.
+
+Section SAField.
+Variable S : Scalar.
+Hypothesis Sft : Sfield S.
+Hypothesis Seqb : seqb_spec S.
+Let Srt : Sring S := F_R Sft.
+Add Field SField : Sft.
+
+(* the kept entries of row i with their coefficients, as a sparse row *)
+Definition sa_coef_row (omega dia : S) (i : nat) (zr : list (nat * S * bool)) : row S :=
+  flat_map (fun e => let ca := fst (fst e) in
+                     if negb (Nat.eqb ca i) && negb (snd e) then []
+                     else [(ca, if Nat.eqb ca i then (s1 - omega) * s1 else dia * snd (fst e))]) zr.
+
+Lemma sa_row_fold_rget (omega dia : S) (Pt : crs S) i zr : forall acc j,
+  rget (fold_left (fun acc e =>
+     let ca := fst (fst e) in
+     if negb (Nat.eqb ca i) && negb (snd e) then acc else
+     let va := if Nat.eqb ca i then (s1 - omega) * s1 else dia * snd (fst e) in
+     fold_left (fun acc ep => row_add acc (fst ep) (va * snd ep)) (nth ca (rows Pt) []) acc) zr acc) j
+  = rget acc j + row_lin (sa_coef_row omega dia i zr) Pt j.
+Proof.
+  induction zr as [|e zr IH]; intros acc j; simpl.
+  - ring.
+  - rewrite IH. destruct (negb (Nat.eqb (fst (fst e)) i) && negb (snd e)); simpl.
+    + reflexivity.
+    + rewrite (rget_fold_row_add Srt). ring.
+Qed.
+
+Lemma fold_acc_AF (k : nat) (zr : list (nat * S * bool)) : forall a,
+  fold_left (fun a e => if Nat.eqb (fst (fst e)) k && snd e then a + snd (fst e) else a) zr a
+  = a + fold_left (fun a e => if Nat.eqb (fst (fst e)) k && snd e then a + snd (fst e) else a) zr s0.
+Proof.
+  induction zr as [|e zr IH]; intro a; simpl; [ring|].
+  rewrite IH. rewrite (IH (if Nat.eqb (fst (fst e)) k && snd e then s0 + snd (fst e) else s0)).
+  destruct (Nat.eqb (fst (fst e)) k && snd e); ring.
+Qed.
+
+(* off-diagonal coefficient: dia * (sum of the strong entries in column k) *)
+Lemma sa_coef_off (omega dia : S) i k zr : k <> i ->
+  rget (sa_coef_row omega dia i zr) k
+  = dia * fold_left (fun a e => if Nat.eqb (fst (fst e)) k && snd e then a + snd (fst e) else a) zr s0.
+Proof.
+  intro Hk. induction zr as [|e zr IH]; simpl.
+  - rewrite rget_nil. ring.
+  - rewrite fold_acc_AF.
+    destruct (Nat.eqb_spec (fst (fst e)) i) as [Ei|Ei]; simpl.
+    + rewrite (rget_cons Srt), IH. simpl.
+      replace (Nat.eqb (fst (fst e)) k) with false by (symmetry; apply Nat.eqb_neq; congruence).
+      simpl. ring.
+    + destruct (snd e) eqn:Es; simpl.
+      * rewrite (rget_cons Srt), IH. simpl. rewrite andb_true_r.
+        destruct (Nat.eqb (fst (fst e)) k); ring.
+      * rewrite IH. rewrite andb_false_r. ring.
+Qed.
+
+(* diagonal coefficient: (1 - omega) once per stored diagonal entry *)
+Lemma sa_coef_diag0 (omega dia : S) i zr :
+  length (filter (fun e : nat * S * bool => Nat.eqb (fst (fst e)) i) zr) = 0%nat ->
+  rget (sa_coef_row omega dia i zr) i = s0.
+Proof.
+  induction zr as [|e zr IH]; simpl; intro H; [apply rget_nil|].
+  destruct (Nat.eqb_spec (fst (fst e)) i) as [Ei|Ei]; simpl in *; [discriminate|].
+  destruct (snd e); simpl.
+  - rewrite (rget_cons Srt). simpl.
+    replace (Nat.eqb (fst (fst e)) i) with false by (symmetry; apply Nat.eqb_neq; exact Ei).
+    rewrite IH by exact H. ring.
+  - apply IH; exact H.
+Qed.
+
+Lemma sa_coef_diag (omega dia : S) i zr :
+  length (filter (fun e : nat * S * bool => Nat.eqb (fst (fst e)) i) zr) = 1%nat ->
+  rget (sa_coef_row omega dia i zr) i = s1 - omega.
+Proof.
+  induction zr as [|e zr IH]; simpl; intro H; [discriminate|].
+  destruct (Nat.eqb_spec (fst (fst e)) i) as [Ei|Ei]; simpl in *.
+  - injection H as H. rewrite (rget_cons Srt). simpl. rewrite Ei, Nat.eqb_refl.
+    rewrite sa_coef_diag0 by exact H. ring.
+  - destruct (snd e); simpl.
+    + rewrite (rget_cons Srt). simpl.
+      replace (Nat.eqb (fst (fst e)) i) with false by (symmetry; apply Nat.eqb_neq; exact Ei).
+      rewrite IH by exact H. ring.
+    + apply IH; exact H.
+Qed.
+
+Lemma sa_coef_row_wf (omega dia : S) i m zr :
+  (forall e, In e zr -> fst (fst e) < m) -> row_wf m (sa_coef_row omega dia i zr) = true.
+Proof.
+  induction zr as [|e zr IH]; intro H; simpl; [reflexivity|].
+  unfold row_wf in *. rewrite forallb_app. rewrite IH by (intros; apply H; right; assumption).
+  rewrite andb_true_r.
+  destruct (negb (Nat.eqb (fst (fst e)) i) && negb (snd e)); simpl; [reflexivity|].
+  rewrite andb_true_r. apply Nat.ltb_lt. apply H. left; reflexivity.
+Qed.
+
+Lemma nth_sa_smooth (omega : S) (A : crs S) st Pt i : i < nrows A ->
+  nth i (rows (sa_smooth omega A st Pt)) []
+  = sa_row omega Pt i (zip_row (nth i (rows A) []) (nth i st [])).
+Proof.
+  intro Hi. unfold sa_smooth. simpl.
+  rewrite (nth_indep _ [] ((fun ir : nat * row S => sa_row omega Pt (fst ir) (zip_row (snd ir) (nth (fst ir) st []))) (0%nat, [])))
+    by (rewrite map_length, indexed_length; exact Hi).
+  rewrite (map_nth (fun ir : nat * row S => sa_row omega Pt (fst ir) (zip_row (snd ir) (nth (fst ir) st [])))).
+  rewrite nth_indexed by exact Hi. reflexivity.
+Qed.
+
+(* Theorem 3:  dense P = (I - omega D^-1 A_F) dense P_tent, row by row *)
+Lemma sa_formula_holds (omega : S) (A : crs S) st Pt i j :
+  wf A = true -> ncols A = nrows A -> i < nrows A ->
+  sa_row_regular A st i = true ->
+  mget (sa_smooth omega A st Pt) i j = sa_formula omega A st Pt i j.
+Proof.
+  intros Hwf Hsq Hi Hreg.
+  unfold sa_row_regular in Hreg. apply andb_prop in Hreg as [Hreg Hlen]. apply andb_prop in Hreg as [HD Hdiag].
+  apply Nat.eqb_eq in Hdiag. apply Nat.eqb_eq in Hlen.
+  set (zr := zip_row (nth i (rows A) []) (nth i st [])) in *.
+  assert (HDne : sa_D A st i <> s0).
+  { intro E. unfold is_zero in HD. rewrite E in HD.
+    assert (seqb (@s0 S) s0 = true) by (apply Seqb; reflexivity). rewrite H in HD. discriminate. }
+  unfold mget. rewrite nth_sa_smooth by exact Hi. fold zr. unfold sa_row.
+  rewrite sa_row_fold_rget, rget_nil.
+  set (dia := sa_scale omega (sa_dia i zr)).
+  assert (Hdia : dia = (- omega) * sinv (sa_D A st i)).
+  { unfold dia, sa_scale. fold (sa_D A st i) in *. unfold sa_D. fold zr.
+    destruct (is_zero (sa_dia i zr)) eqn:Ez; [|reflexivity].
+    exfalso. apply HDne. unfold sa_D. fold zr. apply (is_zero_true Seqb). exact Ez. }
+  assert (Hcols : forall e, In e zr -> fst (fst e) < nrows A).
+  { intros e He. unfold zr, zip_row in He. destruct e as [[c v] b]. apply in_combine_l in He. simpl.
+    unfold wf in Hwf. rewrite forallb_forall in Hwf.
+    assert (Hr : row_wf (ncols A) (nth i (rows A) []) = true) by (apply Hwf; apply nth_In; exact Hi).
+    unfold row_wf in Hr. rewrite forallb_forall in Hr. specialize (Hr _ He). simpl in Hr.
+    apply Nat.ltb_lt in Hr. lia. }
+  rewrite (row_lin_dense Srt _ Pt j (nrows A)) by (apply sa_coef_row_wf; exact Hcols).
+  unfold sa_formula. transitivity (sumn (fun k => sa_M omega A st i k * mget Pt k j) (nrows A)); [|reflexivity].
+  rewrite (sumn_ext _ (fun k => sa_M omega A st i k * mget Pt k j)); [ring|].
+  intros k Hk. f_equal. unfold sa_M, sa_AF.
+  destruct (Nat.eqb_spec i k) as [<-|Hne].
+  - rewrite sa_coef_diag by exact Hdiag. field. exact HDne.
+  - rewrite sa_coef_off by congruence. fold zr. rewrite Hdia. ring.
+Qed.
+
+End SAField.
+
+(* ------------------------------------------------------------------ the header comment of smoothed_aggregation.hpp
+   documents  a_ii^F = a_ii - sum_{j != i} (a_ij - a_ij^F)  (weak entries SUBTRACTED from the diagonal; this is
+   the formula printed in Vanek/Mandel/Brezina 1996), the code accumulates  dia += A.val[j]  for the weak
+   entries (ADDED: the row sum of A_F equals the row sum of A).  The two differ as soon as a row has a weak
+   connection; only the coded one makes rows of P sum to one. *)
+Definition sa_D_doc {S : Scalar} (A : crs S) (st : flags) (i : nat) : S :=
+  fold_left (fun d e => if Nat.eqb (fst (fst e)) i then d + snd (fst e)
+                        else if negb (snd e) then d - snd (fst e) else d)
+            (zip_row (nth i (rows A) []) (nth i st [])) s0.
+Definition sa_M_doc {S : Scalar} (omega : S) (A : crs S) (st : flags) (i k : nat) : S :=
+  (if Nat.eqb i k then s1 else s0)
+  - omega * sinv (sa_D_doc A st i) * (if Nat.eqb i k then sa_D_doc A st i else sa_AF A st i k).
+Definition sa_formula_doc {S : Scalar} (omega : S) (A : crs S) (st : flags) (Pt : crs S) (i j : nat) : S :=
+  sumn (fun k => sa_M_doc omega A st i k * mget Pt k j) (nrows A).
+
+Definition sa_doc_A : crs QcS :=
+  mkCrs 3 [[(0, qc 2 1); (1, qc (-1) 1); (2, qc (-1) 4)];
+           [(0, qc (-1) 1); (1, qc 2 1)];
+           [(0, qc (-1) 4); (2, qc 2 1)]]%nat.
+
+Lemma sa_documented_diagonal_refuted :
+  match pointwise_aggregates (qc 1 16) 1 0 sa_doc_A (repeat (qc 0 1) 3) with
+  | AggOk count id st =>
+      let Pt := tentative_prolongation (S:=QcS) count id in
+      let P := sa_smooth (qc 2 3) sa_doc_A st Pt in
+      sa_row_regular sa_doc_A st 0 = true /\
+      seqb (mget P 0 0) (sa_formula (qc 2 3) sa_doc_A st Pt 0 0) = true /\
+      seqb (mget P 0 0) (qc 5 7) = true /\
+      seqb (sa_formula_doc (qc 2 3) sa_doc_A st Pt 0 0) (qc 17 27) = true
+  | _ => False
+  end.
+Proof. vm_compute. repeat split; reflexivity. Qed.
+
+(* ------------------------------------------------------------------ structure of the transfer operators *)
+Lemma sa_transfer_is_smoothing {S : Scalar} (eps2 relax c23 : S) bs (A : crs S) junk P R :
+  sa_transfer eps2 relax c23 bs A junk = TrOk P R ->
+  exists count id st, pointwise_aggregates eps2 bs 0 A junk = AggOk count id st /\
+    P = sa_smooth (relax * c23) A st (tentative_prolongation count id) /\ R = transpose P.
+Proof.
+  unfold sa_transfer, sa_transfer_omega, sa_omega.
+  destruct (pointwise_aggregates eps2 bs 0 A junk) as [| |count id st]; try discriminate.
+  intro H. injection H as <- <-. exists count, id, st. repeat split.
+Qed.
+
+Lemma restriction_is_transpose {S : Scalar} (eps2 relax c23 eps_strong eps_trunc : S) bs dt (A : crs S) junk junkf P R :
+  (aggregation_transfer eps2 bs A junk = TrOk P R -> R = transpose P) /\
+  (sa_transfer eps2 relax c23 bs A junk = TrOk P R -> R = transpose P) /\
+  (rs_transfer eps_strong eps_trunc dt A junkf = TrOk P R -> R = transpose P).
+Proof.
+  repeat split.
+  - unfold aggregation_transfer. destruct (pointwise_aggregates eps2 bs 0 A junk); try discriminate.
+    intro H; injection H as <- <-; reflexivity.
+  - unfold sa_transfer, sa_transfer_omega. destruct (pointwise_aggregates eps2 bs 0 A junk); try discriminate.
+    intro H; injection H as <- <-; reflexivity.
+  - unfold rs_transfer. destruct (rs_cf eps_strong A junkf) as [[Sv cf]|]; try discriminate.
+    unfold rs_interp. destruct (Nat.eqb (snd (rs_cidx cf)) 0); try discriminate.
+    intro H; injection H as <- <-; reflexivity.
+Qed.
+
+(* ------------------------------------------------------------------ smoothed aggregation: row sums *)
+(* structural symmetry: every stored entry has a stored mirror entry with the same value *)
+Definition struct_sym {S : Scalar} (A : crs S) : Prop :=
+  forall i c v, i < nrows A -> In (c, v) (nth i (rows A) []) -> In (i, v) (nth c (rows A) []).
+
+Section SARowSum.
+Variable S : Scalar.
+Hypothesis Sft : Sfield S.
+Hypothesis Seqb : seqb_spec S.
+Let Srt : Sring S := F_R Sft.
+Add Field SField4 : Sft.
+
+Lemma row_sum_acc (r : row S) a : fold_left (fun a e => a + snd e) r a = a + row_sum r.
+Proof.
+  unfold row_sum. revert a; induction r as [|e r IH]; intro a; simpl; [ring|].
+  rewrite IH, (IH (s0 + snd e)). ring.
+Qed.
+Lemma row_sum_cons (e : nat * S) r : row_sum (e :: r) = snd e + row_sum r.
+Proof. unfold row_sum at 1. simpl. rewrite row_sum_acc. ring. Qed.
+Lemma row_sum_nil : row_sum (@nil (nat * S)) = s0.
+Proof. reflexivity. Qed.
+
+Lemma row_sum_row_add (r : row S) c v : row_sum (row_add r c v) = row_sum r + v.
+Proof.
+  induction r as [|[c' v'] r IH]; simpl.
+  - rewrite row_sum_cons, row_sum_nil. simpl. ring.
+  - destruct (Nat.eqb c' c).
+    + rewrite !row_sum_cons. simpl. ring.
+    + rewrite !row_sum_cons, IH. simpl. ring.
+Qed.
+
+Lemma row_sum_fold_row_add (a : S) (rb acc : row S) :
+  row_sum (fold_left (fun acc eb => row_add acc (fst eb) (a * snd eb)) rb acc) = row_sum acc + a * row_sum rb.
+Proof.
+  revert acc; induction rb as [|e rb IH]; intro acc; simpl.
+  - rewrite row_sum_nil. ring.
+  - rewrite IH, row_sum_row_add, row_sum_cons. ring.
+Qed.
+
+(* total of the kept coefficients times the row totals of P_tent *)
+Definition sa_tot (omega dia : S) (Pt : crs S) (i : nat) (zr : list (nat * S * bool)) : S :=
+  fold_right (fun e acc =>
+     (let ca := fst (fst e) in
+      if negb (Nat.eqb ca i) && negb (snd e) then s0
+      else (if Nat.eqb ca i then (s1 - omega) * s1 else dia * snd (fst e)) * row_sum (nth ca (rows Pt) [])) + acc)
+   s0 zr.
+
+Lemma sa_row_fold_row_sum (omega dia : S) (Pt : crs S) i zr : forall acc,
+  row_sum (fold_left (fun acc e =>
+     let ca := fst (fst e) in
+     if negb (Nat.eqb ca i) && negb (snd e) then acc else
+     let va := if Nat.eqb ca i then (s1 - omega) * s1 else dia * snd (fst e) in
+     fold_left (fun acc ep => row_add acc (fst ep) (va * snd ep)) (nth ca (rows Pt) []) acc) zr acc)
+  = row_sum acc + sa_tot omega dia Pt i zr.
+Proof.
+  induction zr as [|e zr IH]; intro acc; simpl.
+  - ring.
+  - rewrite IH. destruct (negb (Nat.eqb (fst (fst e)) i) && negb (snd e)); simpl.
+    + ring.
+    + rewrite row_sum_fold_row_add. ring.
+Qed.
+
+Lemma tentative_row_sum naggr id c :
+  row_sum (nth c (rows (tentative_prolongation (S:=S) naggr id)) []) = if Z.leb 0 (zget id c) then s1 else s0.
+Proof.
+  rewrite tentative_row_nth. unfold tentative_row. destruct (Z.leb 0 (zget id c)).
+  - rewrite row_sum_cons, row_sum_nil. simpl. ring.
+  - reflexivity.
+Qed.
+
+(* strong off-diagonal total and the lumped diagonal add up to the row total *)
+Definition strong_tot (i : nat) (zr : list (nat * S * bool)) : S :=
+  fold_right (fun e acc => (if negb (Nat.eqb (fst (fst e)) i) && snd e then snd (fst e) else s0) + acc) s0 zr.
+Definition zr_tot (zr : list (nat * S * bool)) : S := fold_right (fun e acc => snd (fst e) + acc) s0 zr.
+
+Lemma sa_dia_acc i (zr : list (nat * S * bool)) : forall a,
+  fold_left (fun d e => if Nat.eqb (fst (fst e)) i || negb (snd e) then d + snd (fst e) else d) zr a
+  = a + sa_dia i zr.
+Proof.
+  unfold sa_dia. induction zr as [|e zr IH]; intro a; simpl; [ring|].
+  rewrite IH. rewrite (IH (if Nat.eqb (fst (fst e)) i || negb (snd e) then s0 + snd (fst e) else s0)).
+  destruct (Nat.eqb (fst (fst e)) i || negb (snd e)); ring.
+Qed.
+
+Lemma dia_plus_strong i (zr : list (nat * S * bool)) : sa_dia i zr + strong_tot i zr = zr_tot zr.
+Proof.
+  induction zr as [|e zr IH]; simpl.
+  - unfold sa_dia. simpl. ring.
+  - unfold sa_dia at 1. simpl. rewrite sa_dia_acc. rewrite <- IH.
+    destruct (Nat.eqb (fst (fst e)) i); destruct (snd e); simpl; ring.
+Qed.
+
+Lemma zr_tot_row (r : row S) fl : length (zip_row r fl) = length r -> zr_tot (zip_row r fl) = row_sum r.
+Proof.
+  unfold zip_row. revert fl; induction r as [|e r IH]; intros fl H; simpl.
+  - reflexivity.
+  - destruct fl as [|b fl]; simpl in *; [discriminate|].
+    rewrite row_sum_cons, IH by lia. reflexivity.
+Qed.
+
+(* with every kept neighbour aggregated, the total is (1 - omega) * #diag + dia * strong_tot *)
+Lemma sa_tot_aggregated0 (omega dia : S) (Pt : crs S) id i zr :
+  (forall c, row_sum (nth c (rows Pt) []) = if Z.leb 0 (zget id c) then s1 else s0) ->
+  (forall e, In e zr -> fst (fst e) <> i -> snd e = true -> (0 <= zget id (fst (fst e)))%Z) ->
+  length (filter (fun e : nat * S * bool => Nat.eqb (fst (fst e)) i) zr) = 0%nat ->
+  sa_tot omega dia Pt i zr = dia * strong_tot i zr.
+Proof.
+  intros HPt. induction zr as [|e zr IH]; simpl; intros Hnb H; [ring|].
+  destruct (Nat.eqb_spec (fst (fst e)) i) as [Ei|Ei]; simpl in *; [discriminate|].
+  rewrite IH by (auto; intros; apply Hnb; auto). destruct (snd e) eqn:Es; simpl.
+  - rewrite HPt.
+    replace (Z.leb 0 (zget id (fst (fst e)))) with true
+      by (symmetry; apply Z.leb_le; apply Hnb; auto). ring.
+  - ring.
+Qed.
+
+Lemma sa_tot_aggregated (omega dia : S) (Pt : crs S) id i zr :
+  (forall c, row_sum (nth c (rows Pt) []) = if Z.leb 0 (zget id c) then s1 else s0) ->
+  (0 <= zget id i)%Z ->
+  (forall e, In e zr -> fst (fst e) <> i -> snd e = true -> (0 <= zget id (fst (fst e)))%Z) ->
+  length (filter (fun e : nat * S * bool => Nat.eqb (fst (fst e)) i) zr) = 1%nat ->
+  sa_tot omega dia Pt i zr = (s1 - omega) + dia * strong_tot i zr.
+Proof.
+  intros HPt Hi. induction zr as [|e zr IH]; simpl; intros Hnb H; [discriminate|].
+  destruct (Nat.eqb_spec (fst (fst e)) i) as [Ei|Ei]; simpl in *.
+  - injection H as H. rewrite (sa_tot_aggregated0 omega dia Pt id i zr HPt) by (auto; intros; apply Hnb; auto).
+    rewrite HPt, Ei.
+    replace (Z.leb 0 (zget id i)) with true by (symmetry; apply Z.leb_le; exact Hi). ring.
+  - rewrite IH by (auto; intros; apply Hnb; auto). destruct (snd e) eqn:Es; simpl.
+    + rewrite HPt.
+      replace (Z.leb 0 (zget id (fst (fst e)))) with true
+        by (symmetry; apply Z.leb_le; apply Hnb; auto). ring.
+    + ring.
+Qed.
+
+Lemma in_combine_map {X} (f : X -> bool) (r : list X) x b :
+  In (x, b) (combine r (map f r)) -> In x r /\ b = f x.
+Proof.
+  induction r as [|a r IH]; simpl; [tauto|]. intros [H|H].
+  - injection H as <- <-. auto.
+  - destruct (IH H). auto.
+Qed.
+
+Lemma nth_strong_connections eps2 (A : crs S) junk i : i < nrows A ->
+  nth i (strong_connections eps2 A junk) [] = strong_row eps2 (diagonal A false junk) i (nth i (rows A) []).
+Proof.
+  intro Hi. unfold strong_connections.
+  rewrite (nth_indep _ [] ((fun ir : nat * row S => strong_row eps2 (diagonal A false junk) (fst ir) (snd ir)) (0%nat, [])))
+    by (rewrite map_length, indexed_length; exact Hi).
+  rewrite (map_nth (fun ir : nat * row S => strong_row eps2 (diagonal A false junk) (fst ir) (snd ir))).
+  rewrite nth_indexed by exact Hi. reflexivity.
+Qed.
+
+Lemma strong_mirror eps2 (dia : vec S) i c v (rc : row S) :
+  c <> i -> sltb (eps2 * vget dia i * vget dia c) (v * v) = true -> In (i, v) rc ->
+  has_strong (strong_row eps2 dia c rc) = true.
+Proof.
+  intros Hne Hs Hin. unfold has_strong, strong_row. apply existsb_exists.
+  exists true. split; [|reflexivity]. apply in_map_iff. exists (i, v). split; [|exact Hin]. simpl.
+  replace (Nat.eqb i c) with false by (symmetry; apply Nat.eqb_neq; congruence). simpl.
+  replace (eps2 * vget dia c * vget dia i) with (eps2 * vget dia i * vget dia c) by ring. exact Hs.
+Qed.
+
+(* Theorem 4 (smoothed aggregation): structurally symmetric A, zero-row-sum row with a strong neighbour *)
+Lemma sa_row_sum_one (eps2 omega : S) (A : crs S) junk count id st i :
+  wf A = true -> ncols A = nrows A -> i < nrows A ->
+  plain_aggregates eps2 A junk = AggOk count id st ->
+  struct_sym A ->
+  row_sum (nth i (rows A) []) = s0 ->
+  has_strong (nth i st []) = true ->
+  sa_row_regular A st i = true ->
+  row_sum (nth i (rows (sa_smooth omega A st (tentative_prolongation count id))) []) = s1.
+Proof.
+  intros Hwf Hsq Hi Hagg Hsym Hzero Hstrong Hreg.
+  destruct (plain_aggregates_partition eps2 A junk count id st Hagg) as (Hc & Hst & (HL & HB & HO & HS)).
+  unfold sa_row_regular in Hreg. apply andb_prop in Hreg as [Hreg Hlen]. apply andb_prop in Hreg as [HD Hdiag].
+  apply Nat.eqb_eq in Hdiag. apply Nat.eqb_eq in Hlen.
+  set (zr := zip_row (nth i (rows A) []) (nth i st [])) in *.
+  assert (HDne : sa_D A st i <> s0).
+  { intro E. unfold is_zero in HD. rewrite E in HD.
+    assert (H : seqb (@s0 S) s0 = true) by (apply Seqb; reflexivity). rewrite H in HD. discriminate. }
+  rewrite nth_sa_smooth by exact Hi. fold zr. unfold sa_row.
+  rewrite sa_row_fold_row_sum, row_sum_nil.
+  set (dia := sa_scale omega (sa_dia i zr)).
+  assert (Hdia : dia = (- omega) * sinv (sa_D A st i)).
+  { unfold dia, sa_scale. unfold sa_D. fold zr.
+    destruct (is_zero (sa_dia i zr)) eqn:Ez; [|reflexivity].
+    exfalso. apply HDne. unfold sa_D. fold zr. apply (is_zero_true Seqb). exact Ez. }
+  assert (Hidi : (0 <= zget id i)%Z) by (apply HS; assumption).
+  assert (Hnb : forall e, In e zr -> fst (fst e) <> i -> snd e = true -> (0 <= zget id (fst (fst e)))%Z).
+  { intros [[c v] b] He Hci Hb. simpl in *. subst b.
+    unfold zr, zip_row in He. rewrite Hst in He. rewrite nth_strong_connections in He by exact Hi.
+    unfold strong_row in He. apply in_combine_map in He. destruct He as [Hin Hflag]. simpl in Hflag.
+    symmetry in Hflag. apply andb_prop in Hflag as [_ Hlt].
+    assert (Hcn : c < nrows A).
+    { unfold wf in Hwf. rewrite forallb_forall in Hwf.
+      assert (Hr : row_wf (ncols A) (nth i (rows A) []) = true) by (apply Hwf; apply nth_In; exact Hi).
+      unfold row_wf in Hr. rewrite forallb_forall in Hr. specialize (Hr _ Hin). simpl in Hr.
+      apply Nat.ltb_lt in Hr. lia. }
+    apply HS; [exact Hcn|]. rewrite Hst, nth_strong_connections by exact Hcn.
+    apply (strong_mirror eps2 (diagonal A false junk) i c v); auto. }
+  rewrite (sa_tot_aggregated omega dia _ id i zr (tentative_row_sum count id) Hidi Hnb Hdiag).
+  assert (Hsum : sa_D A st i + strong_tot i zr = s0).
+  { unfold sa_D. fold zr. rewrite dia_plus_strong. unfold zr. rewrite zr_tot_row by exact Hlen. exact Hzero. }
+  assert (Hst' : strong_tot i zr = - sa_D A st i).
+  { transitivity (sa_D A st i + strong_tot i zr - sa_D A st i); [ring|]. rewrite Hsum. ring. }
+  rewrite Hst', Hdia. field. exact HDne.
+Qed.
+
+End SARowSum.
+
+(* a concrete matrix meeting the hypotheses of the row-sum theorem *)
+Definition lap3 : crs QcS :=
+  mkCrs 3 [[(0, qc 1 1); (1, qc (-1) 1)]; [(0, qc (-1) 1); (1, qc 2 1); (2, qc (-1) 1)]; [(1, qc (-1) 1); (2, qc 1 1)]]%nat.
+Lemma lap3_struct_sym : struct_sym lap3.
+Proof.
+  intros i c v Hi Hin.
+  do 3 (destruct i as [|i]; [simpl in Hin; repeat (destruct Hin as [Hin|Hin]; [injection Hin as <- <-; simpl; auto|]); contradiction|]).
+  unfold nrows in Hi. simpl in Hi. lia.
+Qed.
+
+(* ------------------------------------------------------------------ tentative prolongation with a near-null space,
+   relative to a QR oracle *)
+Section NullSpace.
+Variable S : Scalar.
+Hypothesis Srt : Sring S.
+Add Ring SRingNS : Srt.
+Variable qr : mat (S:=S) -> mat (S:=S) * mat (S:=S).
+
+Lemma fold_right_seq_sumn (f : nat -> S) n :
+  fold_right (fun jj acc => f jj + acc) s0 (seq 0 n) = sumn f n.
+Proof.
+  induction n as [|n IH]; [reflexivity|].
+  rewrite seq_S, fold_right_app. simpl.
+  assert (G : forall l a, fold_right (fun jj acc => f jj + acc) a l = fold_right (fun jj acc => f jj + acc) s0 l + a).
+  { induction l as [|x l IHl]; intro a; simpl; [ring|]. rewrite IHl. ring. }
+  rewrite G, IH. ring.
+Qed.
+
+Lemma fold_right_map' {X Y Z} (g : X -> Y) (f : Y -> Z -> Z) (l : list X) (a : Z) :
+  fold_right f a (map g l) = fold_right (fun x acc => f (g x) acc) a l.
+Proof. induction l as [|x l IH]; simpl; [reflexivity|]. rewrite IH. reflexivity. Qed.
+
+Lemma index_of_spec k l : In k l -> index_of k l < length l /\ nth (index_of k l) l 0%nat = k.
+Proof.
+  induction l as [|x l IH]; simpl; [tauto|]. intro H.
+  destruct (Nat.eqb_spec x k) as [->|Hne]; [split; [lia|reflexivity]|].
+  destruct H as [H|H]; [congruence|]. destruct (IH H). split; [lia|assumption].
+Qed.
+
+Lemma members_in bs id k : k < length id -> (0 <= zget id k)%Z ->
+  In k (members bs id (Nat.div (Z.to_nat (zget id k)) bs)).
+Proof.
+  intros Hk H0. unfold members. apply filter_In. split; [apply in_seq; lia|].
+  apply andb_true_iff. split; [lia | apply Nat.eqb_refl].
+Qed.
+
+(* the coarse null space as one stacked (cols*nba) x cols matrix: row a*cols+jj = row jj of R_a *)
+Definition bnew_entry (cols : nat) (Rs : list (mat (S:=S))) (col c : nat) : S :=
+  mentry (nth (Nat.div col cols) Rs []) (Nat.modulo col cols) c.
+(* (P * Bnew)[k][c] *)
+Definition ns_apply (cols : nat) (Rs : list (mat (S:=S))) (r : row S) (c : nat) : S :=
+  fold_right (fun e acc => snd e * bnew_entry cols Rs (fst e) c + acc) s0 r.
+
+(* P_tent * B_coarse = B on aggregated rows, given Q R = B_aggr for the row's aggregate *)
+Lemma tentative_ns_reproduces (bs cols naggr : nat) (id : list Z) (B : mat (S:=S)) k c :
+  0 < cols -> k < length id -> (0 <= zget id k)%Z ->
+  let i := Nat.div (Z.to_nat (zget id k)) bs in
+  let mem := members bs id i in
+  let QR := qr (map (mrow B) mem) in
+  i < Nat.div naggr bs ->
+  (forall ii, ii < length mem ->
+     sumn (fun jj => mentry (fst QR) ii jj * mentry (snd QR) jj c) cols = mentry B (nth ii mem 0%nat) c) ->
+  let PB := tentative_prolongation_ns qr bs cols naggr id B in
+  ns_apply cols (snd PB) (nth k (rows (fst PB)) []) c = mentry B k c.
+Proof.
+  intros Hcols Hk H0 i mem QR Hi HQR PB.
+  unfold PB, tentative_prolongation_ns. cbn [fst snd rows].
+  set (facs := ns_factors qr bs (Nat.div naggr bs) id B).
+  assert (Hrow : nth k (map (fun ka => tentative_ns_row bs cols facs (fst ka) (snd ka)) (indexed id)) []
+                 = tentative_ns_row bs cols facs k (zget id k)).
+  { rewrite (nth_indep _ [] ((fun ka : nat * Z => tentative_ns_row bs cols facs (fst ka) (snd ka)) (0%nat, removed)))
+      by (rewrite map_length, indexed_length; exact Hk).
+    rewrite (map_nth (fun ka : nat * Z => tentative_ns_row bs cols facs (fst ka) (snd ka))).
+    rewrite nth_indexed by exact Hk. reflexivity. }
+  rewrite Hrow. unfold tentative_ns_row. replace (Z.ltb (zget id k) 0) with false by lia. fold i.
+  assert (Hf : nth i facs ([], ([], [])) = (mem, QR)).
+  { unfold facs, ns_factors.
+    rewrite (nth_indep _ _ ((fun i0 => (members bs id i0, qr (map (mrow B) (members bs id i0)))) 0%nat))
+      by (rewrite map_length, seq_length; exact Hi).
+    rewrite (map_nth (fun i0 => (members bs id i0, qr (map (mrow B) (members bs id i0))))).
+    rewrite seq_nth by exact Hi. reflexivity. }
+  rewrite Hf. cbn [fst snd].
+  destruct (index_of_spec k mem (members_in bs id k Hk H0)) as [Hii Hnth].
+  unfold ns_apply. rewrite fold_right_map'. cbn [fst snd].
+  rewrite (fold_right_seq_sumn (fun jj => mentry (fst QR) (index_of k mem) jj * s1 *
+             bnew_entry cols (map (fun f => snd (snd f)) facs) (i * cols + jj) c)).
+  transitivity (mentry B (nth (index_of k mem) mem 0%nat) c); [|rewrite Hnth; reflexivity].
+  rewrite <- (HQR _ Hii).
+  apply sumn_ext. intros jj Hjj. unfold bnew_entry.
+  replace (Nat.div (i * cols + jj) cols) with i by (apply Nat.div_unique with jj; [lia | ring]).
+  replace (Nat.modulo (i * cols + jj) cols) with jj by (apply Nat.mod_unique with i; [lia | ring]).
+  rewrite (nth_indep _ [] ((fun f : list nat * (mat (S:=S) * mat (S:=S)) => snd (snd f)) ([], ([], []))))
+    by (rewrite map_length; unfold facs, ns_factors; rewrite map_length, seq_length; exact Hi).
+  rewrite (map_nth (fun f : list nat * (mat (S:=S) * mat (S:=S)) => snd (snd f))). rewrite Hf. cbn [snd]. ring.
+Qed.
+
+End NullSpace.
+
+(* ------------------------------------------------------------------ the oracle partition_ok decides partition_spec *)
+Lemma forallb2_nth {X Y} (f : X -> Y -> bool) (l1 : list X) (l2 : list Y) d1 d2 :
+  length l1 = length l2 ->
+  (forall i, i < length l1 -> f (nth i l1 d1) (nth i l2 d2) = true) ->
+  forallb2 f l1 l2 = true.
+Proof.
+  revert l2; induction l1 as [|a l1 IH]; intros [|b l2] HL H; simpl in *; try discriminate; [reflexivity|].
+  rewrite (H 0%nat) by lia. simpl. apply IH; [lia|]. intros i Hi. apply (H (Datatypes.S i)). lia.
+Qed.
+
+Lemma partition_spec_ok n count id st : length st = n ->
+  partition_spec n count id st -> partition_ok count id st = true.
+Proof.
+  intros Hst (HL & HB & HO & HS). unfold partition_ok.
+  apply andb_true_iff; split; [apply andb_true_iff; split|].
+  - unfold ids_in_range. apply forallb_forall. intros a Ha.
+    apply (In_nth _ _ removed) in Ha. destruct Ha as (i & Hi & <-). fold (zget id i).
+    destruct (HB i ltac:(lia)) as [E|E]; [rewrite E; unfold removed; lia | lia].
+  - unfold ids_onto. apply forallb_forall. intros k Hk. apply in_seq in Hk.
+    apply existsb_zget; [unfold removed; lia|]. destruct (HO k ltac:(lia)) as (i & Hi & Hz).
+    exists i. split; [lia | exact Hz].
+  - unfold ids_match_strong. apply (forallb2_nth _ id st removed []); [lia|].
+    intros i Hi. fold (zget id i). specialize (HS i ltac:(lia)).
+    destruct (has_strong (nth i st [])); destruct (Z.leb 0 (zget id i)) eqn:E; try reflexivity.
+    + exfalso. assert (0 <= zget id i)%Z by (apply HS; reflexivity). lia.
+    + exfalso. assert (false = true) by (apply HS; lia). discriminate.
+Qed.
+
+Lemma partition_oracle_complete {S : Scalar} eps2 (A : crs S) junk count id st :
+  plain_aggregates eps2 A junk = AggOk count id st -> partition_ok count id st = true.
+Proof.
+  intro H. destruct (plain_aggregates_partition eps2 A junk count id st H) as (_ & Hst & P).
+  apply (partition_spec_ok (nrows A)); [rewrite Hst; apply strong_connections_length | exact P].
+Qed.
